@@ -43,6 +43,9 @@ KERNELS = {
     "kb": [("field", "gh_readwrite", "w3"), ("field", "gh_read", "w3"), ("scalar", "gh_read", None)],
     "kc": [("field", "gh_write", "w3"), ("field", "gh_inc", "w2"), ("field", "gh_read", "w1"),
            ("scalar", "gh_read", None)],
+    # kernels with an evaluator: one basis function on w1 and a quadrature object of the given shape
+    "kq": [("field", "gh_inc", "w1"), ("field", "gh_read", "w2"), ("qr", "gh_quadrature_XYoZ", None)],
+    "kf": [("field", "gh_inc", "w1"), ("field", "gh_read", "w2"), ("qr", "gh_quadrature_face", None)],
 }
 # built-ins: name -> (arg kinds, written position, formula over argument values at one DoF)
 BUILTINS = {
@@ -72,7 +75,7 @@ KERNEL_SRC = """module {name}_mod
      type(arg_type), dimension({n}) :: meta_args = (/ &
 {args}
           /)
-     integer :: operates_on = cell_column
+{funcs}     integer :: operates_on = cell_column
    contains
      procedure, nopass :: code => {name}_code
   end type {name}_type
@@ -88,6 +91,10 @@ ALG_HEAD = """module alg_mod
   use ka_mod, only: ka_type
   use kb_mod, only: kb_type
   use kc_mod, only: kc_type
+  use kq_mod, only: kq_type
+  use kf_mod, only: kf_type
+  use quadrature_xyoz_mod, only: quadrature_xyoz_type
+  use quadrature_face_mod, only: quadrature_face_type
   implicit none
   type :: inner_type
     type(field_type) :: h1
@@ -97,13 +104,16 @@ ALG_HEAD = """module alg_mod
     type(field_type) :: g1, g2
     real(r_def) :: b, c
     type(inner_type) :: inner
+    type(quadrature_xyoz_type) :: qr
   end type state_type
 contains
-  subroutine alg(f1, f2, f3, f4, fv, a, b, st)
+  subroutine alg(f1, f2, f3, f4, fv, a, b, st, qr_a, qr_b, qrf, qrg)
     type(field_type), intent(inout) :: f1, f2, f3, f4
     type(field_type), intent(inout) :: fv(3)
     real(r_def), intent(inout) :: a, b
     type(state_type), intent(inout) :: st
+    type(quadrature_xyoz_type), intent(in) :: qr_a, qr_b
+    type(quadrature_face_type), intent(in) :: qrf, qrg
     integer :: i
     i = 2
 """
@@ -115,12 +125,18 @@ end module alg_mod
 def write_kernels(workdir):
     for name, meta in KERNELS.items():
         lines = []
-        for i, (kind, acc, sp) in enumerate(meta):
+        data = [m for m in meta if m[0] != "qr"]
+        qrs = [m for m in meta if m[0] == "qr"]
+        for i, (kind, acc, sp) in enumerate(data):
             t = (f"arg_type(gh_scalar, gh_real, {acc})" if kind == "scalar" else
                  f"arg_type(gh_field, gh_real, {acc}, {sp})")
-            lines.append(f"          {t}{',' if i < len(meta) - 1 else ''} &")
+            lines.append(f"          {t}{',' if i < len(data) - 1 else ''} &")
+        funcs = ""
+        if qrs:
+            funcs = ("     type(func_type), dimension(1) :: meta_funcs = (/ func_type(w1, gh_basis) /)\n"
+                     f"     integer :: gh_shape = {qrs[0][1]}\n")
         with open(os.path.join(workdir, f"{name}_mod.f90"), "w", encoding="utf-8") as fh:
-            fh.write(KERNEL_SRC.format(name=name, n=len(meta), args="\n".join(lines)))
+            fh.write(KERNEL_SRC.format(name=name, n=len(data), args="\n".join(lines), funcs=funcs))
 
 
 # ---------------------------------------------------------------- the family of algorithm files
@@ -153,6 +169,10 @@ HAND = {
     "sum_then_use": [("call invoke", ["sum_X(a, f1)"], None), ("call invoke", ["a_times_X(f2, a, f1)"], None)],
     "scalar_components": [("call invoke", ["a_plus_X(f1, st%b, f2)", "inc_a_plus_X(ST%C, f2)",
                                            "ka_type(st%inner%d, st%g1, f2)"], "comps")],
+    "qr_interleaved": [("call invoke", ["kq_type(f1, f2, qr_a)", "kf_type(f2, f3, qrf)", "kq_type(f3, f1, qr_b)"], None)],
+    "qr_repeated": [("call invoke", ["kq_type(f1, f2, qr_a)", "kq_type(f3, f2, QR_A)", "kf_type(f4, f1, qrg)",
+                                     "kf_type(f2, f1, qrf)"], "quads"),
+                    ("call invoke", ["kq_type(f1, f3, st%qr)", "setval_c(f2, 1.0_r_def)", "kq_type(f2, f3, qr_b)"], None)],
     "four_invokes": [("call invoke", ["setval_c(f1, 1.0_r_def)"], None), ("call invoke", ["setval_c(f2, 2.0_r_def)"],
                                                                          "two"),
                      ("call invoke", ["x_plus_y(f3, f1, f2)"], None), ("call invoke", ["kb_type(f4, f3, a)"], None)],
@@ -161,6 +181,7 @@ HAND = {
 FIELD_POOL = ["f1", "F1", "f2", "f3", "f4", "st%g1", "ST % G1", "st%g2", "fv(1)", "fv(2)", "FV( 2 )", "fv(3)",
               "st%inner%h1", "fv(i)"]
 SCALAR_POOL = ["a", "A", "b", "st%b", "st%c", "ST%C", "st%inner%d", "1.0_r_def", "2.0_r_def", "0.5_r_def", "1.0_r_def"]
+QR_POOL = {"gh_quadrature_XYoZ": ["qr_a", "qr_b", "QR_A", "st%qr", "qr_b"], "gh_quadrature_face": ["qrf", "qrg", "QRF"]}
 KEYWORDS = ["call invoke", "call invoke", "call invoke", "CALL INVOKE", "Call Invoke", "call  invoke"]
 
 
@@ -180,12 +201,13 @@ def random_cases(n, seed):
             for _ in range(rnd.choice([1, 2, 3])):
                 nm = rnd.choice(names)
                 kinds = [k[0][0] for k in KERNELS[nm]] if nm in KERNELS else list(BUILTINS[nm][0])
+                shapes = [k[1] for k in KERNELS[nm]] if nm in KERNELS else []
                 wpos = ([i for i, k in enumerate(KERNELS[nm]) if k[1] in WRITES] if nm in KERNELS
                         else [BUILTINS[nm][1]])
                 args, used = [], set()
                 for i, k in enumerate(kinds):
                     for _ in range(20):
-                        t = rnd.choice(FIELD_POOL if k == "f" else SCALAR_POOL)
+                        t = rnd.choice(FIELD_POOL if k == "f" else (QR_POOL[shapes[i]] if k == "q" else SCALAR_POOL))
                         if k == "s" and i in wpos and t[0].isdigit():
                             continue
                         if canon(t) not in used:
@@ -213,7 +235,7 @@ def kernel_uf(name, pos, vals):
 
 
 def apply_kernel(it, name, vals, keys, g):
-    meta = KERNELS[name]
+    meta = [m for m in KERNELS[name] if m[0] != "qr"]
     new = {}
     for pos, (kind, acc, _) in enumerate(meta):
         if kind == "field" and acc in WRITES:
@@ -222,12 +244,33 @@ def apply_kernel(it, name, vals, keys, g):
         it.store[keys[pos]] = z3.If(g, v, it.store[keys[pos]])
 
 
+def qr_token(okey):
+    return z3.Int("id_" + okey)
+
+
 def g_kernel_effect(it, name, args, frame, g):
     if name not in KERNELS:
         raise Unsupported("kernel " + name)
     meta = KERNELS[name]
     vals, keys = [], []
-    for (kind, _, _), node in zip(meta, args[1:1 + len(meta)]):
+    if any(m[0] == "qr" for m in meta):
+        # the quadrature object a kernel works with = the object whose weights / evaluator arrays it is given
+        wobj, bobj = [], []
+        for node in args:
+            b = it.lookup(lname(node), frame) if isinstance(node, F.Name) else None
+            if b is None or not b.key:
+                continue
+            if "%weights" in b.key:
+                wobj.append(b.key.split("%weights")[0])
+            elif b.key in it.basis_of:
+                bobj.append(it.basis_of[b.key])
+        if not wobj or not bobj or len(set(wobj)) != 1:
+            raise Unsupported("quadrature arguments of " + name)
+        qvals = [qr_token(wobj[0]), qr_token(bobj[0])]
+    else:
+        qvals = []
+    data = [m for m in meta if m[0] != "qr"]
+    for (kind, _, _), node in zip(data, args[1:1 + len(data)]):
         if kind == "field":
             b = it.lookup(lname(node), frame) if isinstance(node, F.Name) else None
             if b is None or b.rank != 1:
@@ -237,7 +280,7 @@ def g_kernel_effect(it, name, args, frame, g):
         else:
             vals.append(z3.ToReal(v) if (v := it.ev_scalar(node, frame, g)).sort() == z3.IntSort() else v)
             keys.append(None)
-    apply_kernel(it, name, vals, keys, g)
+    apply_kernel(it, name, vals + qvals, keys + [None] * len(qvals), g)
 
 
 class RefInterp(LfricInterp):
@@ -283,8 +326,14 @@ class RefInterp(LfricInterp):
             if cname.endswith("_type") and cname[:-5] in KERNELS:
                 kname = cname[:-5]
                 vals, keys = [], []
+                qvals = []
                 for (kind, _, _), node in zip(KERNELS[kname], cargs):
-                    if kind == "field":
+                    if kind == "qr":
+                        act = self._actual(node, frame, g)
+                        if act is None or act[0] != "struct":
+                            raise Unsupported("quadrature actual " + str(node))
+                        qvals = [qr_token(act[1].key)] * 2
+                    elif kind == "field":
                         _, key = self._field(node, frame, g)
                         vals.append(self.store[key])
                         keys.append(key)
@@ -292,7 +341,7 @@ class RefInterp(LfricInterp):
                         v = self.ev_scalar(node, frame, g)
                         vals.append(z3.ToReal(v) if v.sort() == z3.IntSort() else v)
                         keys.append(None)
-                apply_kernel(self, kname, vals, keys, g)
+                apply_kernel(self, kname, vals + qvals, keys + [None] * len(qvals), g)
             elif cname in BUILTINS:
                 kinds, wpos, formula = BUILTINS[cname]
                 objs = []
@@ -495,9 +544,23 @@ def replay(invokes, alg_gen, psy_gen, dm, ig, ir, model):
             ints[(okey, what)] = z3.IntVal(1 if what in ("ncell", "last_edge_cell", "last_halo_cell", "halo_depth")
                                            else ndof)
 
+    qid = {"in_qr_a": 1, "in_qr_b": 2, "in_st%qr": 3, "in_qrf": 4, "in_qrg": 5}
+
     def g_effect(it, name, args, frame, g):
-        meta = KERNELS[name]
+        meta = [m for m in KERNELS[name] if m[0] != "qr"]
         vals, ks = [], []
+        qv = []
+        if len(meta) != len(KERNELS[name]):
+            wobj, bobj = [], []
+            for node in args:
+                b = it.lookup(lname(node), frame) if isinstance(node, F.Name) else None
+                if b is None or not b.key:
+                    continue
+                if "%weights" in b.key:
+                    wobj.append(b.key.split("%weights")[0])
+                elif b.key in it.basis_of:
+                    bobj.append(it.basis_of[b.key])
+            qv = [Fraction(qid[wobj[0]]), Fraction(qid[bobj[0]])]
         for (kind, _, _), node in zip(meta, args[1:1 + len(meta)]):
             if kind == "field":
                 b = it.lookup(lname(node), frame)
@@ -512,7 +575,7 @@ def replay(invokes, alg_gen, psy_gen, dm, ig, ir, model):
             raise Unsupported("guard not concrete in replay")
         for pos, (kind, acc, _) in enumerate(meta):
             if kind == "field" and acc in WRITES:
-                it.store[ks[pos]] = arr_const(conc_kernel(name, pos, vals))
+                it.store[ks[pos]] = arr_const(conc_kernel(name, pos, vals + qv))
     try:
         igc, _ = run_sides(None, alg_gen, psy_gen, dm, concrete={"g_effect": g_effect, "inputs": conc_in, "ints": ints})
     except (Unsupported, ValueError) as e:
@@ -540,7 +603,11 @@ def replay(invokes, alg_gen, psy_gen, dm, ig, ir, model):
             args = split_top(rest.rsplit(")", 1)[0])
             if nm.endswith("_type"):
                 kn = nm[:-5]
-                vals = [list(fget(a)) if k[0] == "field" else sget(a) for k, a in zip(KERNELS[kn], args)]
+                vals = [list(fget(a)) if k[0] == "field" else sget(a) for k, a in zip(KERNELS[kn], args)
+                        if k[0] != "qr"]
+                for k, a in zip(KERNELS[kn], args):
+                    if k[0] == "qr":
+                        vals += [Fraction(qid["in_" + canon(a)])] * 2
                 for pos, (kind, acc, _) in enumerate(KERNELS[kn]):
                     if kind == "field" and acc in WRITES:
                         st[fkey(args[pos])] = conc_kernel(kn, pos, vals)
@@ -663,7 +730,7 @@ def main():
         "one cell column, <= %d DoFs, all fields share undf/owned/annexed" % K,
         "LFRic stub contract of vlib/fsym/lfric.py (a field owns one data array; proxies alias it; halo calls have no "
         "data effect)",
-        "operators, stencils, field vectors as whole arrays, quadrature and inter-grid kernels are outside the family"]
+        "operators, stencils, field vectors as whole arrays and inter-grid kernels are outside the family; quadrature: one evaluator (w1 basis) with XYoZ or face quadrature objects, identified by the object whose weights and evaluator arrays reach the kernel"]
     return chk.finish()
 
 
